@@ -3,6 +3,8 @@ pub mod c02;
 pub mod c03;
 pub mod c04;
 pub mod c05;
+pub mod c06;
+pub mod c07;
 pub mod c10;
 pub mod c12;
 pub mod c13;
@@ -11,6 +13,7 @@ pub mod c15;
 pub mod c17;
 pub mod c19;
 pub mod cfcase;
+pub mod semcase;
 pub mod c16;
 
 use crate::engine::*;
@@ -23,6 +26,8 @@ pub fn run(ctx: &Ctx) -> i32 {
         "C03" => c03::run(ctx),
         "C04" => c04::run(ctx),
         "C05" => c05::run(ctx),
+        "C06" => c06::run(ctx),
+        "C07" => c07::run(ctx),
         "C10" => c10::run(ctx),
         "C12" => c12::run(ctx),
         "C13" => c13::run(ctx),
@@ -63,6 +68,8 @@ pub fn replay(ctx: &Ctx, path: &Path) -> i32 {
         "C03" => c03::replay(ctx, &check, &tape),
         "C04" => c04::replay(ctx, &check, &tape),
         "C05" => c05::replay(ctx, &check, &tape),
+        "C06" => c06::replay(ctx, &check, &tape),
+        "C07" => c07::replay(ctx, &check, &tape),
         "C10" => c10::replay(ctx, &check, &tape),
         "C12" => c12::replay(ctx, &check, &tape),
         "C13" => c13::replay(ctx, &check, &tape),
